@@ -82,7 +82,7 @@ PROPS = {
         "trusted_base": ["modelled rather than verified: Numscript.g4 (coq/Model/Lexer.v, Parser.v), parser.go conversions, range.go ShowOnSource (coq/Model/Render.v)", "the ANTLR runtime and generated lexer/parser: exercised only"],
     },
     "C15": {
-        "rule": "scripts from the grammar-complete generator (every alternative of every rule, nesting <= 3, thorough <= 5; any expression in any position; number literals with leading zeros, portions in every spelling, strings with escaped quotes and non-ASCII) x 2 layouts (single spaces; random spaces / tabs / CR LF / blank lines / line and nested block comments with non-ASCII between any two tokens). parser.Parse's tree is dumped in full (every field and range) and compared in Coq with the generator's own tree carrying the printer's spans AND with the reference parser's tree. Every case non-trivial; distinct by hash.",
+        "rule": "scripts from the grammar-complete generator (every alternative of every rule, nesting <= 3, thorough <= 5; any expression in any position; number literals with leading zeros, portions in every spelling, strings with escaped quotes and non-ASCII) x 2 layouts (single spaces; random spaces / tabs / CR LF / blank lines / line and nested block comments with non-ASCII between any two tokens). parser.Parse's tree is dumped in full (every field and range) and compared in Coq with the generator's own tree carrying the printer's spans AND with the reference parser's tree. Group tokens: the generated ANTLR lexer run alone (NextToken until EOF, error listener collecting token recognition errors) on generated scripts, byte-mutated scripts and short strings over the characters the lexer rules discriminate on (slash, star, quote, backslash, CR, LF, digits, percent, dot, at, colon, dollar, non-ASCII, ...): kinds, texts, (line, column) of every token and the position of every lexical error must equal the reference lexer's, and every token text must be found in the input at the offset its position designates, in order, without overlap. Every case non-trivial; distinct by hash.",
         "assumptions": ["portion literals are compared by value (50% is 50/100 in the tree)"],
         "trusted_base": ["modelled rather than verified: Numscript.g4 (coq/Model/Lexer.v, Parser.v), parser.go tree conversion", "harness/gen.go printer spans are the 'text of that construct' of the property"],
     },
